@@ -74,9 +74,12 @@ def _in_lazy_branch(node):
 def _kind_guarded_in_expression(node, p):
     """the use sits in the branch of a conditional expression (or behind an `and`) whose test is `isinstance(<p>, <type>)`:
     `len(value) if isinstance(value, bytes) else None` - the kind is settled before the use is evaluated"""
+    KINDS = {'bytes', 'str', 'int', 'float', 'bool', 'list', 'tuple', 'dict', 'bytearray'}
+
     def positive(t):
         return isinstance(t, ast.Call) and isinstance(t.func, ast.Name) and t.func.id == 'isinstance' and len(t.args) == 2 \
-            and isinstance(t.args[0], ast.Name) and t.args[0].id == p
+            and isinstance(t.args[0], ast.Name) and t.args[0].id == p and \
+            all(isinstance(k, ast.Name) and k.id in KINDS for k in (t.args[1].elts if isinstance(t.args[1], ast.Tuple) else [t.args[1]]))
     child = node
     for a in ancestors(node):
         if isinstance(a, ast.stmt):
